@@ -226,16 +226,24 @@ def build(spec, cfg):
                 for v in c['outs']:
                     yield ci, c, v, 'out'
 
+    def sso_kwargs(o):
+        return {k: fl(v) for k, v in o['sso'].items() if k != 'level'}
+
     def make_comp(c):
         mf = use_mf and c['mf']
         if c['kind'] == 'ivc':
-            ivc = om.IndepVarComp()
+            comp = om.IndepVarComp()
             for o in c['outs']:
-                ivc.add_output(o['name'], val=fl(o['val']), units=o['units'], **_scal_kwargs(o))
-            return ivc
-        if c['kind'] == 'exp':
-            return (AffExpMF if mf else AffExp)(cs=c, use_mf=mf)
-        return (AffImpMF if mf else AffImp)(cs=c, use_mf=mf)
+                comp.add_output(o['name'], val=fl(o['val']), units=o['units'], **_scal_kwargs(o))
+        elif c['kind'] == 'exp':
+            comp = (AffExpMF if mf else AffExp)(cs=c, use_mf=mf)
+        else:
+            comp = (AffImpMF if mf else AffImp)(cs=c, use_mf=mf)
+        L = len(c['path'].split('.'))
+        for o in c['outs']:
+            if o.get('sso') and o['sso']['level'] == L:
+                comp.set_output_solver_options(o['name'], **sso_kwargs(o))
+        return comp
 
     def make_group(gpath):
         g = om.Group()
@@ -278,6 +286,14 @@ def build(spec, cfg):
                 g.add_subsystem(Q[-1], sub, promotes_inputs=pi or None, promotes_outputs=po or None)
                 for v in late:
                     g.promotes(Q[-1], inputs=[v['alias']], src_indices=list(v['src_indices']))
+        # solver scaling set from this group with the relative (unpromoted) path of the output
+        for c in comps:
+            P = c['path'].split('.')
+            if glen and P[:glen] != gpath.split('.'):
+                continue
+            for o in c['outs']:
+                if o.get('sso') and o['sso']['level'] == glen and glen < len(P):
+                    g.set_output_solver_options('.'.join(P[glen:] + [o['name']]), **sso_kwargs(o))
         # explicit connections issued in this group
         for ci, c in enumerate(comps):
             for v in c['ins']:
